@@ -333,7 +333,9 @@ def oracle(chk, n, n_hankel, n_psd_mat):
                 % (float(D[i] / dinf), float(twice[i] / (2 * C[0])), float(r[i]), r0, L0), r=float(r[i]), **rep)
         e = numpy.abs(D - twice) - 1e-3 * numpy.abs(D)
         i = int(numpy.argmax(e))
-        if not e[i] <= 2 * TC * c0:
+        # absolute slack 1e-9·C(0): the binary64 covariance resolves C(0) − C(r) to ~1e-15·C(0); a covariance that is flat near
+        # zero (or only single precision) makes D = 2(C(0) − C(r)) wrong by 100 % at small separations while staying within 1e-5·C(0)
+        if not e[i] <= 1e-9 * c0:
             bad("shape:D=2(C0-C)", "D(r) = %r but 2 (C(0) - C(r)) = %r at r=%r r0=%r L0=%r (more than the rounding of the published constants)"
                 % (float(D[i]), float(twice[i]), float(r[i]), r0, L0), r=float(r[i]), **rep)
         # ---- non-decreasing, bounded by the saturation value, saturating at twice the variance 0.0863 (L0/r0)^(5/3)
